@@ -370,6 +370,30 @@ def run(ctx) -> None:
         res.case(("in-process-interleave", "XYX"))
         if outs[0] != outs[2]:
             res.violate("checking X, then Y, then X again in one process gives two different reports for X", {"kind": "same-process-interleave"}, {"first": outs[0][:400], "third": outs[2][:400]})
+        # a run that FAILS in between (mypy refuses a half-typed file, a file is missing, a bad mypy flag): whatever the failing run
+        # left behind in the process (interpreter settings, caches, half-built state) must not change the next good run — the
+        # partially traversed files are the sensitive ones (how far a traversal gets depends on the recursion limit in force)
+        aw_x = ["first.py", "part240.py", "part265.py", "part290.py", "part315.py", "deep.py", "last.py"]
+        argv_x = [*aw_x, "--enable-all", "--quiet"]
+        plan = [
+            {"op": "run", "argv": argv_x},
+            {"op": "write", "path": "halftyped.py", "text": "def broken(:\n"},
+            {"op": "run", "argv": ["first.py", "halftyped.py", "--enable-all", "--quiet"]},
+            {"op": "run", "argv": ["first.py", "no_such_file.py", "--enable-all", "--quiet"]},
+            {"op": "run", "argv": ["first.py", "--enable-all", "--quiet", "--", "--no-such-mypy-flag"]},
+            {"op": "run", "argv": argv_x},
+        ]
+        outs = in_process(aw, plan, "failbetween")
+        (aw / "halftyped.py").unlink(missing_ok=True)
+        res.case(("in-process-failing-run-between", len(plan)))
+        if outs[0] != outs[-1]:
+            a_l, b_l = set(outs[0].split("\n")), set(outs[-1].split("\n"))
+            res.violate(
+                "the same files give a different report after a FAILED run in the same process (syntax error / missing file / bad mypy flag in between)",
+                {"kind": "same-process-after-failed-run"},
+                {"plan": "run X; run with a half-typed file; run with a missing file; run with a bad mypy flag; run X again (X = the awkward set: part*.py are `u = int(0); w = 1 + 1 + ... (240-315 terms); v = list()`)",
+                 "only_in_first": sorted(a_l - b_l)[:5], "only_in_last": sorted(b_l - a_l)[:5], "how": "harness/props/c11.py:WORKER with that plan, cwd = the awkward directory"},
+            )
         # ---- clones: a byte-identical copy of a file, checked in the same run, must get the same report
         # (whatever state a check keeps between files — id-sets, position sets, caches — must not leak)
         d3 = root / "clones"
